@@ -17,6 +17,7 @@ def run(prog, chk):
     queue_order(prog, chk)
     partial_request_rule(prog, chk)
     blocking_send_table(prog, chk)
+    close_reset_table(prog, chk)
     _run(prog, chk)
 
 
@@ -522,3 +523,35 @@ def blocking_send_table(prog, chk):
             ok = got == want and after == [len(want)] and q.ret == 0
             what = "expected send(offset, length) = %s and the reply read after the last one; source: send calls %s, reply read after %s sends, status %s" % (want, got, after, q.ret)
         chk.ob("C14.send", inst, ok, what, loc=fn.loc(), fn=fn, nontrivial=len(chunks) > 1)
+
+
+def close_reset_table(prog, chk):
+    """closeSocket (net_tcp_async.c) ends a connection: whatever was accumulated on it must not survive into the next one - the input
+    fill level is zero, the socket is invalid, and no request in the send queue keeps a non-zero sent count (the head of the queue is
+    the one being transmitted; a request resumed from its middle on a fresh connection is a fragment on the wire)."""
+    from ksirules.interp import TOP, Interp, Ptr, list_overrides, succeed_model
+    chk.rule("C14.reset", "closing the connection resets the input fill level and the sent count of every queued request "
+                          "(decision table over queue length and which request is partly sent)", floor=6)
+    fn = prog.fn("closeSocket", "net_tcp_async.c")
+    tp = fn.params[0]["n"]
+    INVALID = -1
+    for qlen, partial in ((0, None), (1, 0), (2, 0), (3, 0), (3, 1), (3, 2), (2, None)):
+        lists = {"Q": [Ptr("R%d" % k) for k in range(qlen)]}
+        length, element_at = list_overrides(lists)
+        ov = {"KSI_AsyncHandleList_length": length, "KSI_AsyncHandleList_elementAt": element_at, "close": lambda I, p, n, a: 0,
+              "connectionStateListener": lambda I, p, n, a: 0}
+        inputs = {tp: Ptr("T"), fn.params[1]["n"]: 123, "T->ctx": Ptr("ctx"), "T->sockfd": 5, "T->socketReady": 1, "T->inLen": 17, "T->reqQueue": Ptr("Q")}
+        for k in range(qlen):
+            inputs["R%d->sentCount" % k] = 10 if k == partial else 0
+        I = Interp(fn, inputs=inputs, call_model=succeed_model(prog, ov), on_unknown="stop", prog=prog, loop_bound=qlen + 3)
+        paths = I.run()
+        chk.paths += len(paths)
+        inst = "closeSocket[%d queued%s]" % (qlen, "" if partial is None else ", request %d partly sent" % partial)
+        if len(paths) != 1 or paths[0].undetermined:
+            raise AnalysisBroken("closeSocket: evaluation not determined for %s: %s" % (inst, [q.undetermined[:1] for q in paths]))
+        q = paths[0]
+        counts = [I.read(q, "R%d->sentCount" % k) for k in range(qlen)]
+        inlen, fd = I.read(q, "T->inLen"), I.read(q, "T->sockfd")
+        ok = all(c == 0 for c in counts) and inlen == 0 and isinstance(fd, int) and fd < 0
+        chk.ob("C14.reset", inst, ok, "expected every sent count 0, input fill level 0, socket invalid; source: sent counts %s, fill level %s, socket %s"
+               % (counts, inlen, fd), loc=fn.loc(), fn=fn, nontrivial=partial is not None)
